@@ -52,6 +52,13 @@ def task_grid(ctx, cfg, used=False):
   x = PolyArr.variables(sp, 'x', ms, free=below)
   y = PolyArr.variables(sp, 'y', ms, free=below)
   prove_close(ctx, 'A.d_dlon', lambda x: (grid.to_nodal(grid.d_dlon(x)), syn(dl, x)), [x], sp, select=[sel_n], config=conf)
+  if M <= 4:
+    # storage dtype: integer-valued coefficients held in an int64 array give the same derivatives as the same values in float64
+    spi = Space(bits=14)
+    xi = harness.with_dtype(spi, PolyArr.variables(spi, 'xi', ms, lo=-4.0, hi=4.0, free=below), 'int64')
+    ops = lambda z: (grid.d_dlon(z), grid.cos_lat_d_dlat(z), grid.sec_lat_d_dlat_cos2(z), grid.laplacian(z), grid.inverse_laplacian(z),
+                     grid.clip_wavenumbers(z), grid.cos_lat_grad(z)[1], grid.div_cos_lat((z, z)), grid.curl_cos_lat((z, z)))
+    prove_close(ctx, 'A.integer_stored_coefficients_give_the_same_operators', lambda z: (ops(z), ops(z.astype(jnp.float64))), [xi], spi, config=conf, scale_floor=1.0)
   prove_close(ctx, 'A.cos_lat_d_dlat', lambda x: (grid.to_nodal(grid.cos_lat_d_dlat(x)), syn(dt, x)), [x], sp, select=[sel_n], config=conf)
   prove_close(ctx, 'A.sec_lat_d_dlat_cos2', lambda x: (grid.to_nodal(grid.sec_lat_d_dlat_cos2(x)), syn(dt2, x)), [x], sp, select=[sel_n], config=conf)
   prove_close(ctx, 'A.cos_lat_grad',
